@@ -170,7 +170,12 @@ func (m *UnboundedFairMailbox) Enqueue(msg *ReceiveContext) error {
 	atomic.AddInt64(&m.length, 1)
 
 	verifhook.At("fair.enq.pending", m, 0, 0)
-	if pending := atomic.AddInt64(&sq.pending, 1); pending == 1 {
+	// Activate on the empty -> non-empty transition, and also whenever the
+	// sender is found inactive: producers sharing one sender key (e.g. NoSender)
+	// can bump pending out of order with respect to their inner enqueue, so
+	// pending == 1 alone can miss the activation and strand the sub-queue.
+	pending := atomic.AddInt64(&sq.pending, 1)
+	if pending == 1 || !sq.active.Load() {
 		// transition from empty -> non-empty, try to activate sender
 		verifhook.At("fair.enq.cas", m, 0, 0)
 		if sq.active.CompareAndSwap(false, true) {
@@ -201,6 +206,11 @@ func (m *UnboundedFairMailbox) Dequeue() (msg *ReceiveContext) {
 		// per‑sender queue was drained concurrently; mark inactive
 		verifhook.At("fair.deq.deactivate", m, 0, 0)
 		sq.active.Store(false)
+		// a producer may have published into the sub-queue after the empty
+		// read above and before the flag was cleared; re-check so it is not lost
+		if !sq.mailbox.IsEmpty() && sq.active.CompareAndSwap(false, true) {
+			m.active.enqueue(sq)
+		}
 		return
 	}
 
